@@ -28,8 +28,13 @@ EXTENDS WireOps
 (*   "scope_any"     SCOPE gets an ANY attribute for an explicit ANY: False  *)
 (*                   (these three are how the originally pinned tree does it)*)
 (*   "keephost", "hdr_before_default", "minst_order": realistic regressions  *)
+(*   "ns_drop_empty" tocimxml() of CIMClassName / CIMInstanceName skips      *)
+(*                   empty namespace components ("tolerate duplicate         *)
+(*                   slashes"), while _imethodcall and the CIMObject header  *)
+(*                   keep them                                               *)
 Pinned == {"export_path", "real_repr", "scope_any"}
-Flags == Pinned \cup {"keephost", "hdr_before_default", "minst_order"}
+Flags == Pinned \cup {"keephost", "hdr_before_default", "minst_order",
+                      "ns_drop_empty"}
 
 Arg(f, kb, pr, x) == [f |-> f, kb |-> kb, pr |-> pr, x |-> x]
 A0(f) == Arg(f, <<>>, <<>>, <<>>)
@@ -48,6 +53,23 @@ ValNull  == El("VALUE.NULL", <<>>, <<>>, "none")
 ValArray(kids) == El("VALUE.ARRAY", <<>>, kids, "none")
 
 (* ---- namespaces ---------------------------------------------------------- *)
+(* A namespace is a string; the setters strip leading and trailing slashes  *)
+(* and everything that writes it (tocimxml() of names, _imethodcall, the    *)
+(* CIMObject header) splits it at "/".  Value classes of the stored string: *)
+(*   plain   "nsd", "root/nsd"   every component non-empty                   *)
+(*   empty   ""  (given as "", "/", "//", ...): splitting yields ONE empty  *)
+(*           component, i.e. <NAMESPACE NAME=""/> (LOCALNAMESPACEPATH needs  *)
+(*           NAMESPACE+) and an empty namespace part in CIMObject            *)
+(*   gap     "root//nsd": an empty component between non-empty ones          *)
+(* pywbem accepts all three for the default namespace, the `namespace`      *)
+(* argument, the namespace of object names / instance paths / reference     *)
+(* values and the namespace of an enumeration context.                       *)
+EmptyTok == "#empty"            \* token of the empty string (wirecap.Projector)
+NsClasses == {"plain", "empty", "gap"}
+NsClassOf(ns) ==
+  IF \A i \in DOMAIN ns : ns[i] # EmptyTok THEN "plain"
+  ELSE IF ns = <<EmptyTok>> THEN "empty" ELSE "gap"
+
 NsTok(id) ==
   CASE id = "d1" -> <<"nsd">>
     [] id = "d2" -> <<"root", "nsd">>
@@ -56,6 +78,15 @@ NsTok(id) ==
     [] id = "o" -> <<"root", "nso">>
     [] id = "c" -> <<"root", "nsc">>
     [] id = "r" -> <<"root", "nsr">>
+    [] id \in {"de", "ae", "oe", "ce", "re"} -> <<EmptyTok>>
+    [] id = "dg" -> <<"root", EmptyTok, "nsd">>
+    [] id = "ag" -> <<"root", EmptyTok, "nsa">>
+    [] id = "og" -> <<"root", EmptyTok, "nso">>
+    [] id = "cg" -> <<"root", EmptyTok, "nsc">>
+    [] id = "rg" -> <<"root", EmptyTok, "nsr">>
+
+NsIds == {"d1", "d2", "a1", "a2", "a2s", "o", "c", "r", "de", "ae", "oe", "ce",
+          "re", "dg", "ag", "og", "cg", "rg"}
 
 NsPath(ns) ==
   El("LOCALNAMESPACEPATH", <<>>,
@@ -94,6 +125,15 @@ KeyValTree(kind) ==
          El("VALUE.REFERENCE", <<>>,
             <<El("INSTANCEPATH", <<>>,
                  <<NsPathH(NsTok("r")), RefInstName>>, "none")>>, "none")
+    [] kind \in {"refle", "reflg"} ->     \* boundary namespace of the value
+         El("VALUE.REFERENCE", <<>>,
+            <<El("LOCALINSTANCEPATH", <<>>,
+                 <<NsPath(NsTok(IF kind = "refle" THEN "re" ELSE "rg")),
+                   RefInstName>>, "none")>>, "none")
+    [] kind = "refhe" ->
+         El("VALUE.REFERENCE", <<>>,
+            <<El("INSTANCEPATH", <<>>,
+                 <<NsPathH(NsTok("re")), RefInstName>>, "none")>>, "none")
 
 InstNameTree(cls, kb) ==
   El("INSTANCENAME", <<<<"CLASSNAME", cls>>>>,
@@ -107,16 +147,22 @@ IsInstForm(f) == f \in {"in", "in_ns", "in_ns_h"}
 IsClassForm(f) == f \in {"str", "cn", "cn_ns", "cn_ns_h"}
 HasNs(f) == f \in {"cn_ns", "cn_ns_h", "in_ns", "in_ns_h"}
 
+(* namespace of an object name / instance path that has one: flag "nse"    *)
+(* (the empty namespace) or "nsg" (empty inner component) in a.x, else the  *)
+(* plain "root/nso"                                                          *)
+ONs(a) == IF Has(a.x, "nse") THEN NsTok("oe")
+          ELSE IF Has(a.x, "nsg") THEN NsTok("og") ELSE NsTok("o")
+
 (* tocimxml() of a CIMClassName / CIMInstanceName as given (with path) *)
-NameWithPath(f, cls, kb) ==
+NameWithPath(f, cls, kb, ns) ==
   LET leaf == IF IsInstForm(f) THEN InstNameTree(cls, kb)
               ELSE ClassNameTree(cls) IN
   IF f \in {"cn_ns", "in_ns"}
   THEN El(IF IsInstForm(f) THEN "LOCALINSTANCEPATH" ELSE "LOCALCLASSPATH",
-          <<>>, <<NsPath(NsTok("o")), leaf>>, "none")
+          <<>>, <<NsPath(ns), leaf>>, "none")
   ELSE IF f \in {"cn_ns_h", "in_ns_h"}
   THEN El(IF IsInstForm(f) THEN "INSTANCEPATH" ELSE "CLASSPATH",
-          <<>>, <<NsPathH(NsTok("o")), leaf>>, "none")
+          <<>>, <<NsPathH(ns), leaf>>, "none")
   ELSE leaf
 
 (* ---- qualifiers ------------------------------------------------------------ *)
@@ -190,11 +236,16 @@ PropTree(name, sh) ==
     [] sh = "refc"   -> PR(<<>>, <<El("VALUE.REFERENCE", <<>>,
                                       <<ClassNameTree("refcls")>>, "none")>>)
     [] sh = "refq"   -> PR(<<>>, <<Q1, RefVal>>)
+    [] sh \in {"refle", "reflg"} ->      \* boundary namespace of the value
+         PR(<<>>, <<El("VALUE.REFERENCE", <<>>,
+                       <<El("LOCALINSTANCEPATH", <<>>,
+                            <<NsPath(NsTok(IF sh = "refle" THEN "re" ELSE "rg")),
+                              RefInstName>>, "none")>>, "none")>>)
 
 PropShapes == {"s", "snull", "sempty", "u8", "s64", "b", "dt", "r64", "c16",
                "s+", "s-", "sq", "ei", "eo", "einull", "as", "au8", "aempty",
                "anull", "anone", "asz", "a+", "aei", "aq", "ref", "refnull",
-               "refrc", "ref+", "refc", "refq"}
+               "refrc", "ref+", "refc", "refq", "refle", "reflg"}
 
 PropTrees(pr) == [i \in DOMAIN pr |-> PropTree(PropNames[i], pr[i])]
 
@@ -218,10 +269,10 @@ InstanceWithPath(a) ==
             "none")
     [] a.f = "in_ns" ->
          El("VALUE.OBJECTWITHLOCALPATH", <<>>,
-            <<NameWithPath("in_ns", "icls", a.kb), i>>, "none")
+            <<NameWithPath("in_ns", "icls", a.kb, ONs(a)), i>>, "none")
     [] a.f = "in_ns_h" ->
          El("VALUE.INSTANCEWITHPATH", <<>>,
-            <<NameWithPath("in_ns_h", "icls", a.kb), i>>, "none")
+            <<NameWithPath("in_ns_h", "icls", a.kb, ONs(a)), i>>, "none")
 
 (* ---- classes ---------------------------------------------------------------- *)
 ParamTree(name, sh) ==
@@ -487,13 +538,14 @@ TargetNs(c) ==
          IF c.ns.f \in {"none", "na"} THEN NsTok(c.dflt) ELSE NsTok(c.ns.f)
     [] rule = "arg_cn" ->
          IF c.ns.f \notin {"none", "na"} THEN NsTok(c.ns.f)
-         ELSE IF HasNs(first.f) THEN NsTok("o") ELSE NsTok(c.dflt)
+         ELSE IF HasNs(first.f) THEN ONs(first) ELSE NsTok(c.dflt)
     [] rule = "arg_inst" ->
          IF c.ns.f \notin {"none", "na"} THEN NsTok(c.ns.f)
-         ELSE IF HasNs(first.f) THEN NsTok("o") ELSE NsTok(c.dflt)
+         ELSE IF HasNs(first.f) THEN ONs(first) ELSE NsTok(c.dflt)
     [] rule \in {"obj", "minst", "meth"} ->
-         IF HasNs(first.f) THEN NsTok("o") ELSE NsTok(c.dflt)
-    [] rule = "ctx" -> NsTok("c")
+         IF HasNs(first.f) THEN ONs(first) ELSE NsTok(c.dflt)
+    [] rule = "ctx" -> NsTok(IF first.f = "ctxe" THEN "ce"
+                             ELSE IF first.f = "ctxg" THEN "cg" ELSE "c")
     [] OTHER -> <<>>
 
 (* ---- one IPARAMVALUE ----------------------------------------------------------------- *)
@@ -555,6 +607,13 @@ RefValC == El("VALUE.REFERENCE", <<>>, <<ClassNameTree("refcls")>>, "none")
 RefValL == El("VALUE.REFERENCE", <<>>,
               <<El("LOCALINSTANCEPATH", <<>>,
                    <<NsPath(NsTok("r")), RefInstName>>, "none")>>, "none")
+RefValLNs(id) == El("VALUE.REFERENCE", <<>>,
+                    <<El("LOCALINSTANCEPATH", <<>>,
+                         <<NsPath(NsTok(id)), RefInstName>>, "none")>>, "none")
+RefValCNs(id) == El("VALUE.REFERENCE", <<>>,
+                    <<El("LOCALCLASSPATH", <<>>,
+                         <<NsPath(NsTok(id)), ClassNameTree("refcls")>>,
+                         "none")>>, "none")
 
 MParamTree(name, via, sh) ==
   LET PV(ty, eo, kids) ==
@@ -572,6 +631,9 @@ MParamTree(name, via, sh) ==
     [] sh = "refi" -> PV("reference", "", <<RefValI>>)
     [] sh = "refl" -> PV("reference", "", <<RefValL>>)
     [] sh = "refc" -> PV("reference", "", <<RefValC>>)
+    [] sh = "refle" -> PV("reference", "", <<RefValLNs("re")>>)
+    [] sh = "reflg" -> PV("reference", "", <<RefValLNs("rg")>>)
+    [] sh = "refcle" -> PV("reference", "", <<RefValCNs("re")>>)
     [] sh = "ei"   -> PV("string", "instance", <<Val>>)
     [] sh = "eo"   -> PV("string", "object", <<Val>>)
     [] sh = "null" -> IF via = "cp" THEN PV("string", "", <<>>)
@@ -586,8 +648,8 @@ MParamTree(name, via, sh) ==
     [] sh = "aei"  -> PV("string", "instance", <<ValArray(<<Val>>)>>)
 
 MParamShapes == {"s", "sempty", "u8", "s64", "b", "dt", "r64", "c16", "refi",
-                 "refl", "refc", "ei", "eo", "null", "as", "au8", "aempty",
-                 "aref", "aei"}
+                 "refl", "refc", "refle", "reflg", "refcle", "ei", "eo", "null",
+                 "as", "au8", "aempty", "aref", "aei"}
 
 MethodReq(c, Variant) ==
   LET tgt == c.args[1]
@@ -640,7 +702,18 @@ ExportReq(c, Variant) ==
             cls |-> "", keys |-> <<>>]]
 
 (* ---- all operations ---------------------------------------------------------------------- *)
-ImplReq(c, Variant) ==
+(* regression "ns_drop_empty": every LOCALNAMESPACEPATH written by          *)
+(* tocimxml() of a name loses its empty components; the one _imethodcall    *)
+(* builds itself (first child of IMETHODCALL) and the header do not         *)
+RECURSIVE DropEmptyNs(_, _)
+DropEmptyNs(t, own) ==
+  IF t.t = "LOCALNAMESPACEPATH" /\ ~own
+  THEN El(t.t, t.a,
+          SelectSeq(t.c, LAMBDA k : AttrVal(k, "NAME") # EmptyTok), t.x)
+  ELSE El(t.t, t.a,
+          [i \in DOMAIN t.c |-> DropEmptyNs(t.c[i], t.t = "IMETHODCALL")], t.x)
+
+ImplReq0(c, Variant) ==
   LET o == OpTable[c.op] IN
   CASE o.kind = "i" ->
          IF "minst_order" \in Variant /\ c.op = "ModifyInstance"
@@ -681,6 +754,11 @@ ImplReq(c, Variant) ==
          IN IF refused THEN Refused
             ELSE IMethodReq(tgt, TargetNs(c), tp, targs, Variant)
 
+ImplReq(c, Variant) ==
+  LET r == ImplReq0(c, Variant) IN
+  IF "ns_drop_empty" \in Variant /\ r.emit
+  THEN [r EXCEPT !.tree = DropEmptyNs(r.tree, FALSE)] ELSE r
+
 (* ---- the case space (WireOps_Gen) --------------------------------------------------------- *)
 (* Every dimension (parameter, `namespace`, default namespace, pull mode)    *)
 (* has a base value and a set of alternatives; Cases(K) = all cases in which *)
@@ -688,6 +766,7 @@ ImplReq(c, Variant) ==
 (* parameter values meets in some request).                                  *)
 KbShapes == {<<>>, <<"s">>, <<"c16">>, <<"dt">>, <<"b">>, <<"u8">>, <<"s64">>,
              <<"r32">>, <<"n">>, <<"ref">>, <<"refl">>, <<"refh">>,
+             <<"refle">>, <<"reflg">>, <<"refhe">>,
              <<"s", "u8">>, <<"n", "ref", "b">>}
 BaseKb == <<"s">>
 
@@ -719,10 +798,15 @@ BaseOf(p) ==
     [] p.k = "ctx" -> A0("ctx")
     [] p.k = "mparams" -> Arg("mp", <<>>, <<>>, <<>>)
 
+(* boundary namespaces of an object name / instance path (see NsClasses) *)
+NsFlags == {"nse", "nsg"}
+
 InstNameOpts ==
   {Arg(f, BaseKb, <<>>, <<>>) : f \in {"in_ns", "in_ns_h"}}
     \cup {Arg("in", kb, <<>>, <<>>) : kb \in KbShapes \ {BaseKb}}
     \cup {Arg("in_ns", <<"n", "ref", "b">>, <<>>, <<>>)}
+    \cup {Arg("in_ns", BaseKb, <<>>, <<x>>) : x \in NsFlags}
+    \cup {Arg("in_ns_h", BaseKb, <<>>, <<"nse">>)}
 
 OptsOf(p) ==
   CASE p.k = "bool" -> {A0("t"), A0("f")}
@@ -730,20 +814,27 @@ OptsOf(p) ==
     [] p.k = "uint" -> IF p.r THEN {} ELSE {A0("v")}
     [] p.k = "plist" -> {A0("empty"), A0("one"), A0("two"), A0("str"),
                          A0("nullelem")}
-    [] p.k = "cn" -> {A0(f) : f \in {"str", "cn", "cn_ns", "cn_ns_h"}}
-                       \ {BaseOf(p)}
+    [] p.k = "cn" -> ({A0(f) : f \in {"str", "cn", "cn_ns", "cn_ns_h"}}
+                       \ {BaseOf(p)})
+                       \cup (IF p.v = "tcls"    \* may carry the target namespace
+                             THEN {Arg("cn_ns", <<>>, <<>>, <<x>>) : x \in NsFlags}
+                             ELSE {})
     [] p.k = "in" -> InstNameOpts
     [] p.k = "on" -> {A0(f) : f \in {"cn", "cn_ns", "cn_ns_h"}}
                        \cup InstNameOpts \cup {Arg("in", BaseKb, <<>>, <<>>)}
+                       \cup {Arg("cn_ns", <<>>, <<>>, <<x>>) : x \in NsFlags}
+                       \cup {Arg("cn_ns_h", <<>>, <<>>, <<"nse">>)}
     [] p.k \in {"inst", "xinst"} ->
          ({Arg("nopath", <<>>, pr, <<>>) : pr \in InstContents}
             \cup {Arg("nopath", <<>>, <<"s">>, <<q>>) : q \in {"q", "qfl"}}
             \cup {Arg(f, BaseKb, <<"s">>, <<>>) : f \in {"in", "in_ns", "in_ns_h"}}
+            \cup {Arg("in_ns", BaseKb, <<"s">>, <<x>>) : x \in NsFlags}
             \cup {Arg("in_ns", <<"n", "ref", "b">>, <<"s", "as", "ref">>, <<"q">>)})
            \ {BaseOf(p)}
     [] p.k = "minst" ->
          ({Arg("in", BaseKb, pr, <<>>) : pr \in InstContents}
             \cup {Arg(f, BaseKb, <<"s">>, <<>>) : f \in {"in_ns", "in_ns_h"}}
+            \cup {Arg("in_ns", BaseKb, <<"s">>, <<x>>) : x \in NsFlags}
             \cup {Arg("in", kb, <<"s">>, <<>>) : kb \in KbShapes}
             \cup {Arg("in_ns_h", <<"n", "ref", "b">>, <<"s", "as", "ref">>, <<"q">>)})
            \ {BaseOf(p)}
@@ -755,7 +846,7 @@ OptsOf(p) ==
            \cup {Arg("cls", <<"m", "p">>, <<"snull", "anone", "refnull">>,
                      <<"super", "qb", "qa", "m2">>)}
     [] p.k = "qd" -> {Arg("qd", <<>>, <<>>, x) : x \in QdFlagSets}
-    [] p.k = "ctx" -> {}
+    [] p.k = "ctx" -> {A0("ctxe"), A0("ctxg")}
     [] p.k = "mparams" ->
          {Arg("mp", <<>>, <<via, sh>>, <<>>) :
             via \in {"tuple", "kw", "cp"}, sh \in MParamShapes}
@@ -770,9 +861,11 @@ DimOpts(op, d) ==
   LET np == NP(op) IN
   IF d <= np THEN OptsOf(OpTable[op].params[d])
   ELSE IF d = np + 1
-  THEN (IF OpTable[op].hasns THEN {A0("a1"), A0("a2"), A0("a2s")} ELSE {})
+  THEN (IF OpTable[op].hasns
+        THEN {A0("a1"), A0("a2"), A0("a2s"), A0("ae"), A0("ag")} ELSE {})
   ELSE IF d = np + 2
-  THEN (IF OpTable[op].nsrule \in {"ctx", "none"} THEN {} ELSE {A0("d1")})
+  THEN (IF OpTable[op].nsrule \in {"ctx", "none"} THEN {}
+        ELSE {A0("d1"), A0("de"), A0("dg")})
   ELSE (IF OpTable[op].kind = "iter" THEN {A0("f"), A0("n")} ELSE {})
 
 BaseCase(op) ==
